@@ -1318,6 +1318,7 @@ func TestC20(t *testing.T) {
 	e.msgSweep()
 	e.memoSweep()
 	e.precompileSweep()
+	e.precompileRunSweep(t)
 	e.decoderSweep()
 	e.feeSweep()
 	e.hostileAnte()
